@@ -50,7 +50,7 @@ namespace awkward {
 
   int64_t
   TupleBuilder::length() const {
-    return length_;
+    return (length_ < 0 ? 0 : length_);
   }
 
   void
